@@ -30,6 +30,10 @@ def _envs(h: str, alg: str, l2: bytes, pub_struct: bytes, priv_bits: int, pub_bi
     return seed, pub
 
 
+def pub_struct_magic(curve: str) -> bytes:
+    return {"P256": b"ECK1", "P384": b"ECK3"}[curve]
+
+
 def leading_zeros(b: bytes) -> int:
     n = 0
     for x in b:
@@ -77,7 +81,10 @@ def one_case(terms: dict, h: str, mode: str, grp: t.Optional[tuple], l2: bytes, 
                 row["exc"] = "SKIP"
                 return row
             P = ev.ec_mul(c, k, (c.gx, c.gy))
-            pub_struct = refdc.ecdh_key(curve, P[0], P[1])
+            # key_length of the group public key blob: the curve size, or padded beyond it (forall key_length paddings); the
+            # ephemeral key the library emits has to use the same width
+            ekl = c.size + (0, 8, 0, 24)[rid % 4]
+            pub_struct = pub_struct_magic(curve) + struct.pack("<I", ekl) + P[0].to_bytes(ekl, "big") + P[1].to_bytes(ekl, "big")
             seed, pub = _envs(h, mode, l2, pub_struct, priv_bits, priv_bits, b"")
         if eph is not None:
             g.os = types.SimpleNamespace(urandom=lambda n: eph[:n].rjust(n, b"\x00"))
@@ -98,10 +105,10 @@ def one_case(terms: dict, h: str, mode: str, grp: t.Optional[tuple], l2: bytes, 
                 ok = ok and ybytes == pow(gg, int.from_bytes(eph[:64].rjust(64, b"\x00"), "big"), p).to_bytes(kl, "big")
         else:
             n = c.size
-            ok = ki[:4] == {"P256": b"ECK1", "P384": b"ECK3"}[curve] and struct.unpack("<I", ki[4:8])[0] == n and len(ki) == 8 + 2 * n
-            ex, ey = int.from_bytes(ki[8 : 8 + n], "big"), int.from_bytes(ki[8 + n : 8 + 2 * n], "big")
+            ok = ki[:4] == pub_struct_magic(curve) and struct.unpack("<I", ki[4:8])[0] == ekl and len(ki) == 8 + 2 * ekl
+            ex, ey = int.from_bytes(ki[8 : 8 + ekl], "big"), int.from_bytes(ki[8 + ekl : 8 + 2 * ekl], "big")
             ok = ok and ev.on_curve(c, (ex, ey))
-            ybytes = ki[8 : 8 + n]
+            ybytes = ki[8 + (ekl - n) : 8 + ekl]
             env = {"L2": l2, "peer_point": (ex, ey), "key_len": n}
             if eph is not None:
                 Q = ev.ec_mul(c, int.from_bytes(eph[:n].rjust(n, b"\x00"), "big"), (c.gx, c.gy))
